@@ -44,6 +44,32 @@ pub const GOS: &[(&str, bool)] = &[
     ("go depth 2 movetime 5", true),
 ];
 
+/// Groups of positions with the same placement that differ in exactly one other component.
+pub const TWINS: &[&[&str]] = &[
+    &["7k/8/8/Pp6/8/8/8/7K w - b6 0 1", "7k/8/8/Pp6/8/8/8/7K w - - 0 1"],
+    &["7k/8/8/8/6pP/8/8/7K b - h3 0 1", "7k/8/8/8/6pP/8/8/7K b - - 0 1"],
+    &["4k3/8/8/3pP3/8/8/8/4K3 w - d6 0 1", "4k3/8/8/3pP3/8/8/8/4K3 w - - 0 1"],
+    &["r3k2r/8/8/8/8/8/8/R3K2R w KQkq - 0 1", "r3k2r/8/8/8/8/8/8/R3K2R w - - 0 1", "r3k2r/8/8/8/8/8/8/R3K2R w Kq - 0 1"],
+    &["8/8/8/4k3/8/4K3/4P3/8 w - - 0 1", "8/8/8/4k3/8/4K3/4P3/8 b - - 0 1"],
+];
+
+/// Bare-material positions (colour mirrors are added).
+pub const BARE: &[&str] = &[
+    "8/8/4k3/8/8/4K3/8/8 w - - 0 1",
+    "8/8/4k3/8/8/4K3/8/8 b - - 0 1",
+    "8/8/4k3/8/8/4K3/8/5N2 w - - 0 1",
+    "8/8/4k3/8/8/4K3/8/5N2 b - - 0 1",
+    "8/8/4k3/8/8/4K3/8/5B2 w - - 0 1",
+    "8/8/4k3/8/8/4K3/8/5B2 b - - 0 1",
+    "8/8/4k3/8/8/4K3/8/4NN2 w - - 0 1",
+    "2b5/8/4k3/8/8/4K3/8/5B2 w - - 0 1",
+    "2n5/8/4k3/8/8/4K3/8/5B2 b - - 0 1",
+    "8/8/4k3/8/8/4K3/8/5R2 w - - 0 1",
+    "8/8/4k3/8/8/4K3/8/5Q2 b - - 0 1",
+    "k7/8/1K6/8/8/8/8/8 b - - 0 1",
+    "k7/2K5/8/8/8/8/8/1R6 w - - 0 1",
+];
+
 pub const HORIZON_S: u64 = 60;
 
 pub fn model_position(cmd: &str) -> Pos {
@@ -241,6 +267,92 @@ pub fn run(tier: &str, seed: u64, out: &str, exe: &str) {
             .set("histories_length_3_reduced_alphabet", histories.len() - n2)
             .set("excluded", "quiescence-explosion position with a depth-only go (does not end in practical time)"),
     );
+
+    // ---- (c) twin positions: same placement, differing in exactly one of en-passant target,
+    // castling rights or side to move, searched one after the other in the same process in both
+    // orders (what one search cached must never yield an illegal answer for the twin)
+    if !rep.saturated() {
+        let mut jobs: Vec<Vec<String>> = Vec::new();
+        for group in TWINS {
+            for a in group.iter() {
+                for b in group.iter() {
+                    if a == b {
+                        continue;
+                    }
+                    for (ga, _) in GOS {
+                        for (gb, _) in GOS {
+                            jobs.push(vec![format!("position fen {}", a), ga.to_string(), format!("position fen {}", b), gb.to_string()]);
+                        }
+                    }
+                }
+            }
+        }
+        let res: Vec<bool> = par_map(&jobs, |h| {
+            if rep.saturated() {
+                return false;
+            }
+            runs.fetch_add(1, Ordering::Relaxed);
+            gos.fetch_add(2, Ordering::Relaxed);
+            check_history(&rep, exe, h)
+        });
+        eprintln!("[C03] twin positions: {} groups, {} two-step histories, {} as expected ({:.1}s)", TWINS.len(), jobs.len(), res.iter().filter(|x| **x).count(), rep.elapsed());
+        samples.push(J::Str(jobs[jobs.len() / 2].join(" | ")));
+        parts.push(J::obj().set("part", "c: twin positions (one component differs), every ordered pair within a group x every pair of go sets").set("groups", TWINS.iter().map(|g| g.to_vec()).collect::<Vec<_>>()).set("runs", jobs.len()));
+    }
+
+    // ---- (d) single searches of many positions: every special root (with colour mirrors) and
+    // bare-material positions x every go set (thorough: also every state one ply from a root)
+    if !rep.saturated() {
+        let roots = crate::roots::all_roots().unwrap_or_else(|e| {
+            eprintln!("MACHINERY ERROR: {}", e);
+            std::process::exit(2)
+        });
+        let mut fens: Vec<String> = roots.iter().map(|r| r.pos.fen(0, 1)).collect();
+        for f in BARE {
+            let p = Pos::from_fen(f).unwrap();
+            if let Err(e) = p.validity() {
+                eprintln!("MACHINERY ERROR: C03 bare position {:?}: {}", f, e);
+                std::process::exit(2);
+            }
+            fens.push(p.fen(0, 1));
+            fens.push(p.mirror().fen(0, 1));
+        }
+        // depth-only searches only for the bare-material positions: several roots have
+        // quiescence trees of millions of nodes, which a depth-only go must search completely
+        let n_roots = roots.len();
+        let mut jobs: Vec<Vec<String>> = Vec::new();
+        for (i, f) in fens.iter().enumerate() {
+            for (g, timed) in GOS {
+                if *timed || i >= n_roots {
+                    jobs.push(vec![format!("position fen {}", f), g.to_string()]);
+                }
+            }
+        }
+        let n_root_jobs = jobs.len();
+        if thorough {
+            let mut seen = std::collections::HashSet::new();
+            for r in &roots {
+                for m in r.pos.legal_moves() {
+                    let n = r.pos.make(m);
+                    if seen.insert(n.fen4()) {
+                        for g in ["go movetime 500", "go movetime 37"] {
+                            jobs.push(vec![format!("position fen {}", n.fen(0, 1)), g.to_string()]);
+                        }
+                    }
+                }
+            }
+        }
+        let res: Vec<bool> = par_map(&jobs, |h| {
+            if rep.saturated() {
+                return false;
+            }
+            runs.fetch_add(1, Ordering::Relaxed);
+            gos.fetch_add(1, Ordering::Relaxed);
+            check_history(&rep, exe, h)
+        });
+        eprintln!("[C03] single searches: {} positions x {} go sets (+{} one ply from a root), {} as expected ({:.1}s)", fens.len(), GOS.len(), jobs.len() - n_root_jobs, res.iter().filter(|x| **x).count(), rep.elapsed());
+        parts.push(J::obj().set("part", "d: single searches on a fresh process").set("positions", fens.len()).set("go_sets", GOS.len()).set("runs", jobs.len()));
+    }
 
     // ---- (b) budget sweep
     if !rep.saturated() {
